@@ -13,8 +13,9 @@ Definition snapshot_version : N := Z.to_N Consts.MbrSnapshotVersion.
 Definition hack_hash : N := Consts.MbrHackHash.
 
 (* CosiSignature.Keys: set bit positions of the uint64 mask, ascending *)
-Definition mask_keys (mask : N) : list nat :=
-  filter (fun i => N.testbit mask (N.of_nat i)) (seq 0 64).
+Definition bit_positions : list nat := seq 0 64.
+Definition mask_bit (mask : N) (i : nat) : bool := N.testbit mask (N.of_nat i).
+Definition mask_keys (mask : N) : list nat := filter (mask_bit mask) bit_positions.
 
 (* elements at the given positions; None when a position is out of range *)
 Fixpoint select {A} (l : list A) (idx : list nat) : option (list A) :=
